@@ -1,9 +1,468 @@
-//! group `server` — stub (not built yet).
+//! group `server` — C01–C05, C07–C10: `Server::handle_message` end to end.
+//!
+//! Case lines (one request against one configuration):
+//!   srv <u|t> <payload> <catalog> <reqhex>            → response hex | none | panic
+//!   aud <payload> <catalog> <reqhex> <udp> <tcp>      → ok      (udp/tcp = response hex | none | panic;
+//!        the driver's spec column audits the implementation's own octets: C02 C03 C04 C07 C08 C09 …)
+//!
+//! catalog = `-` or zones joined by `|`; zone = `<L|N|F>:<apexhex>:<class>:<glue 0|1>:<rec>,<rec>…`
+//! rec = `<ownerhex>/<type>/<ttl>/<rdatahex>`   (records are added in this order)
 #![allow(unused)]
 use crate::common::*;
+use crate::dns;
+use quandary::class::Class;
+use quandary::db::catalog::Entry;
+use quandary::db::zone::GluePolicy;
+use quandary::db::{HashMapTreeCatalog, HashMapTreeZone};
+use quandary::name::Name;
+use quandary::rr::{Rdata, Ttl, Type};
+use quandary::server::{ReceivedInfo, Response, Server, Transport};
+use std::net::{IpAddr, Ipv4Addr};
+use std::sync::Arc;
 
-pub fn run(_op: &str, _a: &[&str]) -> Option<String> {
-    None
+#[derive(Clone, Debug)]
+pub struct Rec { pub owner: Vec<u8>, pub ty: u16, pub ttl: u32, pub rdata: Vec<u8> }
+
+#[derive(Clone, Debug)]
+pub struct ZoneCfg { pub kind: char, pub apex: Vec<u8>, pub class: u16, pub glue_wide: bool, pub recs: Vec<Rec> }
+
+pub fn enc_catalog(zs: &[ZoneCfg]) -> String {
+    if zs.is_empty() { return "-".into(); }
+    zs.iter().map(|z| {
+        let recs = if z.recs.is_empty() { "-".to_string() } else {
+            z.recs.iter().map(|r| format!("{}/{}/{}/{}", hex(&r.owner), r.ty, r.ttl, hex(&r.rdata))).collect::<Vec<_>>().join(",")
+        };
+        format!("{}:{}:{}:{}:{}", z.kind, hex(&z.apex), z.class, if z.glue_wide { 1 } else { 0 }, recs)
+    }).collect::<Vec<_>>().join("|")
 }
 
-pub fn gen(_rng: &mut Rng, _thorough: bool, _em: &mut Emitter) {}
+pub fn dec_catalog(s: &str) -> Option<Vec<ZoneCfg>> {
+    if s == "-" { return Some(vec![]); }
+    let mut out = Vec::new();
+    for z in s.split('|') {
+        let f: Vec<&str> = z.split(':').collect();
+        if f.len() != 5 { return None; }
+        let mut recs = Vec::new();
+        if f[4] != "-" {
+            for r in f[4].split(',') {
+                let g: Vec<&str> = r.split('/').collect();
+                if g.len() != 4 { return None; }
+                recs.push(Rec { owner: unhex(g[0])?, ty: g[1].parse().ok()?, ttl: g[2].parse().ok()?, rdata: unhex(g[3])? });
+            }
+        }
+        out.push(ZoneCfg { kind: f[0].chars().next()?, apex: unhex(f[1])?, class: f[2].parse().ok()?, glue_wide: f[3] == "1", recs });
+    }
+    Some(out)
+}
+
+pub type Cat = HashMapTreeCatalog<HashMapTreeZone, ()>;
+
+fn name(w: &[u8]) -> Option<Box<Name>> { Name::try_from_uncompressed_all(w).ok() }
+
+/// Build the real catalog. Records whose `add` fails are skipped (the generators produce
+/// consistent zones; the count of skipped records is returned so a case can be discarded).
+pub fn build_catalog(zs: &[ZoneCfg]) -> Option<(Cat, usize)> {
+    let mut cat = Cat::new();
+    let mut skipped = 0;
+    for z in zs {
+        let apex = name(&z.apex)?;
+        let class = Class::from(z.class);
+        match z.kind {
+            'L' => {
+                let mut zone = HashMapTreeZone::new(apex, class, if z.glue_wide { GluePolicy::Wide } else { GluePolicy::Narrow });
+                for r in &z.recs {
+                    let owner = name(&r.owner)?;
+                    let rd: &Rdata = <&Rdata>::try_from(&r.rdata[..]).ok()?;
+                    if zone.add(&owner, Type::from(r.ty), class, Ttl::from(r.ttl), rd).is_err() { skipped += 1; }
+                }
+                cat.insert(Entry::Loaded(Arc::new(zone), ()));
+            }
+            'N' => { cat.insert(Entry::NotYetLoaded(apex, class, ())); }
+            _ => { cat.insert(Entry::FailedToLoad(apex, class, ())); }
+        }
+    }
+    Some((cat, skipped))
+}
+
+pub fn handle(server: &Server<Cat>, req: &[u8], tcp: bool) -> Result<Option<Vec<u8>>, ()> {
+    let info = ReceivedInfo::new(IpAddr::V4(Ipv4Addr::new(192, 0, 2, 1)), if tcp { Transport::Tcp } else { Transport::Udp });
+    let mut buf = vec![0u8; 65535];
+    let r = std::panic::catch_unwind(std::panic::AssertUnwindSafe(|| server.handle_message(req, info, &mut buf)));
+    match r {
+        Ok(Response::Single(n)) => Ok(Some(buf[..n].to_vec())),
+        Ok(Response::None) => Ok(None),
+        Err(_) => Err(()),
+    }
+}
+
+fn resp_hex(r: &Result<Option<Vec<u8>>, ()>) -> String {
+    match r { Ok(Some(b)) => hex(b), Ok(None) => "none".into(), Err(()) => "panic".into() }
+}
+
+pub fn make_server(zs: &[ZoneCfg], payload: u16) -> Option<Server<Cat>> {
+    let (cat, skipped) = build_catalog(zs)?;
+    if skipped > 0 { return None; }
+    let mut s = Server::new(Arc::new(cat));
+    s.set_edns_udp_payload_size(payload).ok()?;
+    Some(s)
+}
+
+pub fn run(op: &str, a: &[&str]) -> Option<String> {
+    match (op, a) {
+        ("srv", [tr, payload, cat, req]) => {
+            let (Some(zs), Some(req), Ok(payload)) = (dec_catalog(cat), unhex(req), payload.parse::<u16>()) else { return Some("bad-op".into()) };
+            let Some(server) = make_server(&zs, payload) else { return Some("bad-op".into()) };
+            Some(resp_hex(&handle(&server, &req, *tr == "t")))
+        }
+        ("aud", [payload, cat, req, _udp, _tcp]) => {
+            // re-run and check that the recorded octets are what the implementation returns now
+            let (Some(zs), Some(req), Ok(payload)) = (dec_catalog(cat), unhex(req), payload.parse::<u16>()) else { return Some("bad-op".into()) };
+            let Some(server) = make_server(&zs, payload) else { return Some("bad-op".into()) };
+            let u = resp_hex(&handle(&server, &req, false));
+            let t = resp_hex(&handle(&server, &req, true));
+            Some(if u == *_udp && t == *_tcp { "ok".into() } else { format!("stale {} {}", u, t) })
+        }
+        _ => None,
+    }
+}
+
+// ------------------------------------------------------------------------------------------
+// generators
+// ------------------------------------------------------------------------------------------
+
+const LBL: [&[u8]; 9] = [b"a", b"b", b"c", b"www", b"ns", b"mx", b"*", b"d", b"e"];
+
+fn lname(labels: &[&[u8]]) -> Vec<u8> {
+    dns::name_from_labels(&labels.iter().map(|l| l.to_vec()).collect::<Vec<_>>())
+}
+
+fn under(rng: &mut Rng, apex: &[u8], depth: usize) -> Vec<u8> {
+    let mut w = Vec::new();
+    for _ in 0..depth {
+        let l = *rng.pick(&LBL);
+        w.push(l.len() as u8);
+        w.extend_from_slice(l);
+    }
+    w.extend_from_slice(apex);
+    w
+}
+
+fn case_flip(rng: &mut Rng, w: &[u8]) -> Vec<u8> {
+    // flip the case of letters inside labels (not the length octets)
+    let mut out = w.to_vec();
+    let mut p = 0;
+    while p < out.len() {
+        let l = out[p] as usize;
+        if l == 0 { break; }
+        for i in p + 1..(p + 1 + l).min(out.len()) {
+            if out[i].is_ascii_alphabetic() && rng.chance(1, 2) { out[i] ^= 0x20; }
+        }
+        p += 1 + l;
+    }
+    out
+}
+
+fn soa_rdata(rng: &mut Rng, apex: &[u8], minimum: u32) -> Vec<u8> {
+    let mut v = under(rng, apex, 1);
+    v.extend(under(rng, apex, 1));
+    for x in [1u32, 7200, 3600, 86400, minimum] { v.extend_from_slice(&x.to_be_bytes()); }
+    v
+}
+
+/// One zone with interesting content. TTLs are chosen per (owner, type) so adds never mismatch;
+/// exact duplicate RDATA within an RRset is avoided.
+pub fn gen_zone(rng: &mut Rng, apex: Vec<u8>, class: u16) -> ZoneCfg {
+    let mut recs: Vec<Rec> = Vec::new();
+    let mut seen: std::collections::HashSet<(Vec<u8>, u16, Vec<u8>)> = Default::default();
+    let mut ttls: std::collections::HashMap<(Vec<u8>, u16), u32> = Default::default();
+    let lower = |w: &[u8]| -> Vec<u8> { w.iter().map(|b| b.to_ascii_lowercase()).collect() };
+    let mut push = |rng: &mut Rng, recs: &mut Vec<Rec>, owner: Vec<u8>, ty: u16, rdata: Vec<u8>| {
+        let key = (lower(&owner), ty);
+        let ttl = *ttls.entry(key.clone()).or_insert_with(|| *rng.pick(&[0u32, 60, 300, 3600, 86400]));
+        if seen.insert((key.0.clone(), ty, lower(&rdata))) {
+            recs.push(Rec { owner, ty, ttl, rdata });
+        }
+    };
+    if rng.chance(9, 10) {
+        let min = *rng.pick(&[0u32, 30, 60, 3600, 86400, 0x8000_0001]);
+        let rd = soa_rdata(rng, &apex, min);
+        push(rng, &mut recs, apex.clone(), 6, rd);
+    }
+    if rng.chance(9, 10) {
+        for _ in 0..rng.range(1, 2) { let t = under(rng, &apex, 1); push(rng, &mut recs, apex.clone(), 2, t); }
+    }
+    let n = rng.range(0, 14);
+    for _ in 0..n {
+        let depth = rng.range(0, 3);
+        let mut owner = under(rng, &apex, depth);
+        match rng.below(14) {
+            0..=2 => { let rd: Vec<u8> = (0..4).map(|_| rng.byte()).collect(); push(rng, &mut recs, owner, 1, rd); }
+            3 => { if class == 1 { let rd: Vec<u8> = (0..16).map(|_| rng.byte()).collect(); push(rng, &mut recs, owner, 28, rd); } }
+            4 | 5 => { let d = rng.range(0, 2); let t = under(rng, &apex, d); push(rng, &mut recs, owner, 5, t); }
+            6 => { // delegation
+                if owner != apex {
+                    let k = rng.range(1, 2);
+                    for _ in 0..k {
+                        let t = match rng.below(3) { 0 => under(rng, &owner, 1), 1 => under(rng, &apex, 1), _ => lname(&[b"ns", b"other"]) };
+                        push(rng, &mut recs, owner.clone(), 2, t.clone());
+                        if rng.chance(2, 3) { let rd: Vec<u8> = (0..4).map(|_| rng.byte()).collect(); push(rng, &mut recs, t, 1, rd); }
+                    }
+                }
+            }
+            7 => { let d = rng.range(0, 2); let t = under(rng, &apex, d); let mut rd = vec![0, rng.byte()]; rd.extend(t); push(rng, &mut recs, owner, 15, rd); }
+            8 => { let d = rng.range(0, 2); let t = under(rng, &apex, d); let mut rd: Vec<u8> = (0..6).map(|_| rng.byte()).collect(); rd.extend(t); push(rng, &mut recs, owner, 33, rd); }
+            9 => { let rd = vec![3, b'a', b'b', b'c']; push(rng, &mut recs, owner, 16, rd); }
+            10 => { // malformed RDATA for a name-bearing type
+                let rd = match rng.below(3) { 0 => vec![], 1 => vec![5, b'a'], _ => vec![1, b'a', 0, 7] };
+                let ty = *rng.pick(&[2u16, 5, 15, 6]);
+                push(rng, &mut recs, owner, ty, rd);
+            }
+            11 => { let t = under(rng, &apex, 1); let ty = *rng.pick(&[3u16, 4, 7, 12]); push(rng, &mut recs, owner, ty, t); }
+            12 => { let rd: Vec<u8> = (0..rng.below(6)).map(|_| rng.byte()).collect(); let ty = *rng.pick(&[99u16, 10, 13, 65280]); push(rng, &mut recs, owner, ty, rd); }
+            _ => { let rd: Vec<u8> = (0..4).map(|_| rng.byte()).collect(); push(rng, &mut recs, owner, 1, rd); }
+        }
+    }
+    // CNAME chains and loops
+    if rng.chance(1, 3) {
+        let len = rng.range(1, 10);
+        let names: Vec<Vec<u8>> = (0..=len).map(|i| { let l = format!("c{}", i); let mut w = vec![l.len() as u8]; w.extend_from_slice(l.as_bytes()); w.extend_from_slice(&apex); w }).collect();
+        for i in 0..len { push(rng, &mut recs, names[i].clone(), 5, names[i + 1].clone()); }
+        match rng.below(3) {
+            0 => { let j = rng.below(len + 1); push(rng, &mut recs, names[len].clone(), 5, names[j].clone()); } // loop
+            1 => { let rd: Vec<u8> = (0..4).map(|_| rng.byte()).collect(); push(rng, &mut recs, names[len].clone(), 1, rd); }
+            _ => {}
+        }
+    }
+    // shuffle a little so insertion order varies
+    for i in (1..recs.len()).rev() { if rng.chance(1, 3) { let j = rng.below(i + 1); recs.swap(i, j); } }
+    ZoneCfg { kind: 'L', apex, class, glue_wide: rng.chance(1, 4), recs }
+}
+
+pub fn gen_catalog(rng: &mut Rng) -> Vec<ZoneCfg> {
+    let apexes: [Vec<u8>; 6] = [lname(&[b"a"]), lname(&[b"b", b"a"]), lname(&[b"example"]), vec![0], lname(&[b"c", b"b", b"a"]), lname(&[b"com"])];
+    let mut zs = Vec::new();
+    let n = match rng.below(8) { 0 => 0, 1..=4 => 1, 5 | 6 => 2, _ => 3 };
+    let mut used: std::collections::HashSet<(Vec<u8>, u16)> = Default::default();
+    for _ in 0..n {
+        let apex = rng.pick(&apexes).clone();
+        let class = *rng.pick(&[1u16, 1, 1, 1, 3, 4]);
+        if !used.insert((apex.clone(), class)) { continue; }
+        match rng.below(8) {
+            0 => zs.push(ZoneCfg { kind: 'N', apex, class, glue_wide: false, recs: vec![] }),
+            1 => zs.push(ZoneCfg { kind: 'F', apex, class, glue_wide: false, recs: vec![] }),
+            _ => zs.push(gen_zone(rng, apex, class)),
+        }
+    }
+    zs
+}
+
+fn opt_rr(rng: &mut Rng, payload: u16, ttl: u32, owner: &[u8]) -> Vec<u8> {
+    let rd = if rng.chance(1, 6) { dns::rand_rdata(rng, 41, &[], false) } else { vec![] };
+    dns::rr(owner, 41, payload, ttl, &rd)
+}
+
+/// names worth asking about: owners in the zones, their neighbours, RDATA targets
+fn query_names(rng: &mut Rng, zs: &[ZoneCfg]) -> Vec<Vec<u8>> {
+    let mut v: Vec<Vec<u8>> = Vec::new();
+    for z in zs {
+        v.push(z.apex.clone());
+        for r in &z.recs {
+            v.push(r.owner.clone());
+            // one label below / sibling / parent
+            let mut below = vec![1, *rng.pick(&[b'a', b'z', b'*'])]; below.extend_from_slice(&r.owner); if below.len() <= 255 { v.push(below); }
+            if r.owner.len() > 1 { let l = r.owner[0] as usize; v.push(r.owner[1 + l..].to_vec()); }
+        }
+    }
+    v.push(lname(&[b"nowhere", b"test"]));
+    v.push(vec![0]);
+    v
+}
+
+/// a clean, well-formed QUERY aimed at the zone contents (C05/C04), optionally with EDNS
+pub fn gen_clean_query(rng: &mut Rng, zs: &[ZoneCfg]) -> Vec<u8> {
+    let names = query_names(rng, zs);
+    let mut qname = rng.pick(&names).clone();
+    if rng.chance(1, 4) { qname = case_flip(rng, &qname); }
+    let loaded: Vec<&ZoneCfg> = zs.iter().filter(|z| z.kind == 'L').collect();
+    let qclass = if loaded.is_empty() || rng.chance(1, 20) { 1 } else { rng.pick(&loaded).class };
+    let qtype = if rng.chance(1, 3) {
+        // a type that occurs in the zones
+        let tys: Vec<u16> = zs.iter().flat_map(|z| z.recs.iter().map(|r| r.ty)).collect();
+        if tys.is_empty() { 1 } else { *rng.pick(&tys) }
+    } else { *rng.pick(&[1u16, 1, 2, 5, 6, 15, 16, 28, 33, 255, 255, 12, 99]) };
+    let mut ar = 0u16;
+    let mut body = dns::question(&qname, qtype, qclass);
+    if rng.chance(1, 2) {
+        let payload = *rng.pick(&[0u16, 512, 513, 600, 1232, 4096, 65535]);
+        body.extend(dns::rr(&[0], 41, payload, 0, &[])); ar += 1;
+    }
+    let mut m = dns::header(rng.next() as u16, if rng.chance(1, 2) { 0x0100 } else { 0 }, 1, 0, 0, ar);
+    m.extend(body);
+    m
+}
+
+pub fn gen_request(rng: &mut Rng, zs: &[ZoneCfg]) -> Vec<u8> {
+    if rng.chance(1, 2) { return gen_clean_query(rng, zs); }
+    let names = query_names(rng, zs);
+    let mut qname = rng.pick(&names).clone();
+    if rng.chance(1, 5) { qname = case_flip(rng, &qname); }
+    let qtype = *rng.pick(&[1u16, 1, 2, 5, 6, 15, 16, 28, 33, 255, 255, 251, 252, 253, 254, 12, 99, 41, 250]);
+    let qclass = match rng.below(12) { 0 => 255, 1 => 3, 2 => 254, 3 => 4, _ => zs.first().map(|z| z.class).unwrap_or(1) };
+    let opcode: u16 = if rng.chance(1, 10) { rng.below(16) as u16 } else { 0 };
+    let mut flags: u16 = (opcode << 11) | if rng.chance(1, 2) { 0x0100 } else { 0 };
+    if rng.chance(1, 8) { flags = rng.next() as u16; }
+    let qd: u16 = match rng.below(16) { 0 => 0, 1 => 2, _ => 1 };
+    let mut body = Vec::new();
+    for _ in 0..qd.min(2) { body.extend(dns::question(&qname, qtype, qclass)); }
+    let mut an = 0u16; let mut ns = 0u16; let mut ar = 0u16;
+    // occasional ordinary records in the request
+    if rng.chance(1, 10) { let rd = dns::rand_rdata(rng, 1, &[], false); body.extend(dns::rr(&dns::pointer(12), 1, 1, 5, &rd)); an += 1; }
+    if rng.chance(1, 14) { body.extend(opt_rr(rng, 1232, 0, &[0])); if rng.chance(1, 2) { an += 1 } else { ns += 1 } } // OPT in the wrong section
+    if rng.chance(1, 8) { let rd = dns::rand_rdata(rng, 16, &[], false); body.extend(dns::rr(&qname, 16, 1, 0, &rd)); ar += 1; } // plain record before the OPT
+    if rng.chance(1, 2) {
+        let payload = *rng.pick(&[0u16, 511, 512, 513, 1232, 4096, 65535, 100]);
+        let ttl: u32 = match rng.below(8) { 0 => 0x0001_0000, 1 => 0x8001_0000, 2 => rng.next() as u32, 3 => 0x0000_8000, 4 => 0xff00_0000, _ => 0 };
+        let owner: Vec<u8> = if rng.chance(1, 10) { lname(&[b"x"]) } else { vec![0] };
+        body.extend(opt_rr(rng, payload, ttl, &owner)); ar += 1;
+        if rng.chance(1, 12) { body.extend(opt_rr(rng, payload, 0, &[0])); ar += 1; } // second OPT
+    }
+    if rng.chance(1, 12) { let rd = dns::rand_rdata(rng, 16, &[], false); body.extend(dns::rr(&qname, 16, 1, 0, &rd)); ar += 1; }
+    let mut m = dns::header(rng.next() as u16, flags, qd, an, ns, ar);
+    m.extend(body);
+    // mutations (C08): truncation, junk, count edits, byte flips
+    if rng.chance(1, 4) { dns::mutate(rng, &mut m); }
+    if rng.chance(1, 16) { dns::mutate(rng, &mut m); }
+    m
+}
+
+/// a zone with large RRsets and long names, to reach the size limits (C04)
+pub fn gen_big_zone(rng: &mut Rng) -> ZoneCfg {
+    let long = |rng: &mut Rng, n: usize| -> Vec<u8> { let mut l: Vec<u8> = Vec::new(); for _ in 0..n { l.push(b'a' + rng.below(26) as u8); } l };
+    let apex = if rng.chance(1, 2) { lname(&[b"big"]) } else {
+        let n1 = rng.range(20, 63); let n2 = rng.range(20, 63); let l1 = long(rng, n1); let l2 = long(rng, n2);
+        dns::name_from_labels(&[l1, l2])
+    };
+    let mut recs = Vec::new();
+    let mut soa = under(rng, &apex, 1); soa.extend(under(rng, &apex, 1));
+    for x in [1u32, 2, 3, 4, 60] { soa.extend_from_slice(&x.to_be_bytes()); }
+    recs.push(Rec { owner: apex.clone(), ty: 6, ttl: 300, rdata: soa });
+    let host = |rng: &mut Rng, i: usize| -> Vec<u8> { let l = format!("h{}", i); let mut w = vec![l.len() as u8]; w.extend_from_slice(l.as_bytes()); if rng.chance(1, 3) { let k = rng.range(10, 40); let x = long(rng, k); w.push(x.len() as u8); w.extend(x); } w };
+    let n_ns = rng.range(1, 12);
+    let mut targets = Vec::new();
+    for i in 0..n_ns { let mut t = host(rng, i); t.extend_from_slice(&apex); targets.push(t.clone()); recs.push(Rec { owner: apex.clone(), ty: 2, ttl: 300, rdata: t }); }
+    for t in &targets {
+        for _ in 0..rng.range(0, 3) { recs.push(Rec { owner: t.clone(), ty: 1, ttl: 60, rdata: (0..4).map(|_| rng.byte()).collect() }); }
+        if rng.chance(1, 2) { recs.push(Rec { owner: t.clone(), ty: 28, ttl: 60, rdata: (0..16).map(|_| rng.byte()).collect() }); }
+    }
+    // a big RRset
+    let mut owner = vec![1, b'w']; owner.extend_from_slice(&apex);
+    let n = *rng.pick(&[1usize, 5, 20, 28, 29, 30, 31, 40, 100, 400]);
+    let ty = *rng.pick(&[1u16, 16, 15, 28]);
+    let mut seen = std::collections::HashSet::new();
+    for i in 0..n {
+        let rd: Vec<u8> = match ty {
+            1 => vec![10, (i >> 8) as u8, i as u8, rng.byte()],
+            28 => { let mut v = vec![0x20; 14]; v.push((i >> 8) as u8); v.push(i as u8); v }
+            16 => { let k = rng.range(1, 60); let mut v = vec![k as u8]; let x = long(rng, k); v.extend(x); v }
+            _ => { let mut v = vec![(i >> 8) as u8, i as u8]; v.extend(targets[i % targets.len()].clone()); v }
+        };
+        if seen.insert(rd.clone()) { recs.push(Rec { owner: owner.clone(), ty, ttl: 30, rdata: rd }); }
+    }
+    // a delegation with many in-bailiwick and sibling name servers
+    let mut child = vec![3, b's', b'u', b'b']; child.extend_from_slice(&apex);
+    for i in 0..rng.range(1, 10) {
+        let mut t = host(rng, 100 + i);
+        if rng.chance(2, 3) { t.extend_from_slice(&child); } else { t.extend_from_slice(&apex); }
+        recs.push(Rec { owner: child.clone(), ty: 2, ttl: 300, rdata: t.clone() });
+        for _ in 0..rng.range(0, 3) { recs.push(Rec { owner: t.clone(), ty: 1, ttl: 60, rdata: (0..4).map(|_| rng.byte()).collect() }); }
+        if rng.chance(1, 2) { recs.push(Rec { owner: t.clone(), ty: 28, ttl: 60, rdata: (0..16).map(|_| rng.byte()).collect() }); }
+    }
+    // dedupe exact duplicates (same owner/type/rdata)
+    let mut uniq = std::collections::HashSet::new();
+    recs.retain(|r| uniq.insert((r.owner.clone(), r.ty, r.rdata.clone())));
+    ZoneCfg { kind: 'L', apex, class: 1, glue_wide: false, recs }
+}
+
+pub fn emit_pair(em: &mut Emitter, server: &Server<Cat>, payload: u16, cat: &str, req: &[u8]) {
+    let u = handle(server, req, false);
+    let t = handle(server, req, true);
+    let rh = hex(req);
+    em.emit(&format!("aud {} {} {} {} {}", payload, cat, rh, resp_hex(&u), resp_hex(&t)), "ok");
+    if EMIT_SRV {
+        for (tr, r) in [("u", &u), ("t", &t)] {
+            em.emit(&format!("srv {} {} {} {}", tr, payload, cat, rh), &resp_hex(r));
+        }
+    }
+}
+
+/// `srv` lines need the server model in the driver; enabled once it exists.
+pub const EMIT_SRV: bool = true;
+
+pub fn gen(rng: &mut Rng, thorough: bool, em: &mut Emitter) {
+    let n_cat = if thorough { 1500 } else { 120 };
+    let per = if thorough { 60 } else { 40 };
+    for _ in 0..n_cat {
+        let zs = gen_catalog(rng);
+        let payload = *rng.pick(&[512u16, 513, 1232, 4096, 65535]);
+        let Some(server) = make_server(&zs, payload) else { continue };
+        let cat = enc_catalog(&zs);
+        for _ in 0..per {
+            let req = gen_request(rng, &zs);
+            emit_pair(em, &server, payload, &cat, &req);
+        }
+        // every header-flag combination on one query (C03): sampled in quick, all opcodes×flags in thorough
+        let base = gen_request(rng, &zs);
+        if base.len() >= 12 {
+            let k = if thorough { 64 } else { 8 };
+            for _ in 0..k {
+                let mut m = base.clone();
+                m[2] = rng.byte(); m[3] = rng.byte();
+                emit_pair(em, &server, payload, &cat, &m);
+            }
+        }
+    }
+    // large RRsets, long names, many name servers: the size limits (C04)
+    let n_big = if thorough { 300 } else { 25 };
+    for _ in 0..n_big {
+        let z = gen_big_zone(rng);
+        let zs = vec![z];
+        let payload = *rng.pick(&[512u16, 513, 700, 1232, 4096, 65535]);
+        let Some(server) = make_server(&zs, payload) else { continue };
+        let cat = enc_catalog(&zs);
+        for _ in 0..12 {
+            let req = gen_clean_query(rng, &zs);
+            emit_pair(em, &server, payload, &cat, &req);
+        }
+    }
+    // short messages: all lengths 0..=14 with counts set (C01 witnesses live here)
+    let zs = gen_catalog(rng);
+    if let Some(server) = make_server(&zs, 1232) {
+        let cat = enc_catalog(&zs);
+        for len in 0..=16usize {
+            for qd in 0..=2u16 { for an in 0..=1u16 { for ar in 0..=1u16 {
+                let mut m = dns::header(7, 0x0100, qd, an, 0, ar);
+                m.extend_from_slice(&[0, 0, 1, 0, 1, 0xc0, 0x0c, 0, 1]);
+                m.truncate(len);
+                emit_pair(em, &server, 1232, &cat, &m);
+            }}}
+        }
+    }
+}
+
+#[allow(dead_code)]
+pub fn debug_big(rng: &mut Rng) {
+    for _ in 0..5 {
+        let z = gen_big_zone(rng);
+        let r = build_catalog(&[z.clone()]);
+        eprintln!("big zone: {} recs -> {:?}", z.recs.len(), r.map(|x| x.1));
+        if let Some(apex) = name(&z.apex) {
+            let mut zone = HashMapTreeZone::new(apex, Class::from(1), GluePolicy::Narrow);
+            for rec in &z.recs {
+                let owner = name(&rec.owner);
+                if owner.is_none() { eprintln!("  bad owner {}", hex(&rec.owner)); continue; }
+                let rd: &Rdata = <&Rdata>::try_from(&rec.rdata[..]).unwrap();
+                if let Err(e) = zone.add(&owner.unwrap(), Type::from(rec.ty), Class::from(1), Ttl::from(rec.ttl), rd) { eprintln!("  add failed {:?} ty {} owner {}", e, rec.ty, hex(&rec.owner)); break; }
+            }
+        }
+    }
+}
